@@ -396,6 +396,36 @@ def traffic_session(ctx, sid, prof, length=None):
     return s.trace()
 
 
+def flood_session(ctx, sid):
+    """Many bursts pending at once on one transceiver (L1 scheduling far ahead, or a clock that
+    stalls): every accepted burst still has exactly one of the outcomes of C03."""
+    import rand_burst_gen
+    rng = ctx.rng
+    seed_random(rng)
+    sim = mk_sim(rng, argv=CONFIGS[0], start=rng.choice([None, HYPER - 40]))
+    s = Session(sid, sim)
+    gen = rand_burst_gen.RandBurstGen()
+    setup_pair(s, rng)
+    for t in range(len(sim.trx)):
+        s.cmd(t, "CMD SETFORMAT %d" % rng.choice([0, 1]))
+        s.cmd(t, "CMD POWERON")
+    g = sim.app.clck_gen
+    t = rng.choice([0, 1])
+    nfr = rng.randint(66, 80)                     # frames ahead, 8 timeslots each: 528..640 bursts
+    src = g.clck_src
+    _, bits = burst_bits(rng, gen, "nb")
+    order = [(k, tn) for k in range(1, nfr + 1) for tn in range(8)]
+    if rng.random() < 0.5:
+        rng.shuffle(order)
+    for k, tn in order:
+        s.data(t, tx_datagram(sim.trx[t].data_if._hdr_ver, (src + k) % HYPER, tn, 0, bits))
+    for _ in range(nfr + 3):
+        s.tick()
+    for u in range(len(sim.trx)):
+        s.cmd(u, "CMD POWEROFF")
+    return s.trace()
+
+
 def traffic_stats(ctx, traces):
     nd = nb = nn = ns = 0
     for t in traces:
